@@ -388,6 +388,7 @@ pub fn scenario(id: &str) -> Option<Box<dyn Scenario>> {
             relabel: None,
         }),
         "C16" => Box::new(DiffScenario),
+        "C12" => Box::new(ReclaimScenario),
         "C05" => Box::new(crate::conc::ConcScenario { id: "C05" }),
         "C07" => Box::new(crate::crash::CrashScenario { mode: crate::crash::Mode::C07 }),
         "C08" => Box::new(crate::crash::CrashScenario { mode: crate::crash::Mode::C08 }),
@@ -527,5 +528,169 @@ impl Scenario for DiffScenario {
         let ra = run_plan(&env.bins, &pa, &RunOpts::default());
         let rb = run_plan(&env.bins, &pb, &RunOpts::default());
         (judge_diff(plan, &ra, &rb), history_hash(&ra) ^ history_hash(&rb).rotate_left(1))
+    }
+}
+
+
+// ---------------------------------------------------------------------------
+// C12: reclamation. Sequential client + the reclaimer thread; at every file removal the
+// simulator records which harness entries the file holds (independent scan).
+// ---------------------------------------------------------------------------
+pub struct ReclaimScenario;
+
+pub fn judge_reclaim(plan: &Plan, rr: &RunResult) -> (Vec<Finding>, u64) {
+    let mut m = SeqModel::new(plan);
+    m.run(rr);
+    let mut out: Vec<Finding> = m
+        .findings
+        .iter()
+        .filter(|f| f.rule.starts_with("c01.") || f.rule.starts_with("c03.no_progress") || f.rule.starts_with("any."))
+        .cloned()
+        .map(|mut f| {
+            if !f.rule.starts_with("any.") {
+                f.rule = format!("c12.{}", f.rule.replace('.', "_"));
+            }
+            f
+        })
+        .collect();
+    // For each model finding: had a file been deleted before the (re)open that precedes the failing
+    // operation? (the known positional-cursor finding needs exactly that)
+    {
+        let mut removed_any = false;
+        let mut reopened_after_removal = false;
+        let mut ret_pos: std::collections::BTreeMap<u32, bool> = std::collections::BTreeMap::new();
+        let opsx = index_ops(plan);
+        for inc in rr.incs.iter() {
+            for e in &inc.events {
+                if e.t == "io" && e.io.as_ref().map(|io| io.kind == "Remove").unwrap_or(false) {
+                    removed_any = true;
+                }
+                if e.t == "ret" {
+                    if let Some(id) = e.op {
+                        if matches!(opsx.get(&id).map(|o| &o.kind), Some(OpKind::Open { .. })) && removed_any {
+                            reopened_after_removal = true;
+                        }
+                        ret_pos.insert(id, reopened_after_removal);
+                    }
+                }
+            }
+        }
+        for f in out.iter_mut() {
+            let v = ret_pos.get(&f.op).copied().unwrap_or(false);
+            f.facts.insert("reopened_after_file_removal".into(), serde_json::json!(v));
+        }
+    }
+    let mut removals = 0u64;
+    // entries returned by consuming reads, with the step at which the read returned (per incarnation order)
+    let ops = index_ops(plan);
+    let mut consumed: std::collections::BTreeMap<u64, (usize, u64)> = std::collections::BTreeMap::new();
+    for (i, inc) in rr.incs.iter().enumerate() {
+        for e in &inc.events {
+            if e.t == "ret" {
+                if let (Some(id), Some(res)) = (e.op, e.res.as_ref()) {
+                    let consuming = matches!(
+                        ops.get(&id).map(|o| &o.kind),
+                        Some(OpKind::ReadNext { checkpoint: true, .. }) | Some(OpKind::BatchRead { checkpoint: true, start: None, .. }) | Some(OpKind::Drain { .. })
+                    );
+                    if consuming && (res.k == "ok" || !res.entries.is_empty()) {
+                        // a Drain makes many calls: each entry is stamped with the step at which its call returned
+                        let mut stamps: Vec<u64> = Vec::new();
+                        if !res.calls.is_empty() && res.calls.len() == res.call_steps.len() {
+                            for (n, st) in res.calls.iter().zip(res.call_steps.iter()) {
+                                for _ in 0..*n {
+                                    stamps.push(*st);
+                                }
+                            }
+                        }
+                        for (k, s) in res.entries.iter().enumerate() {
+                            if s.2 != 0 {
+                                let st = stamps.get(k).copied().unwrap_or(e.step);
+                                consumed.entry(s.2).or_insert((i, st));
+                            }
+                        }
+                    }
+                }
+            }
+        }
+    }
+    for (i, inc) in rr.incs.iter().enumerate() {
+        for e in &inc.events {
+            if e.t == "io" {
+                if let Some(io) = &e.io {
+                    if io.kind == "Remove" {
+                        removals += 1;
+                        let held: Vec<(u32, u64)> = e.msg.as_ref().and_then(|m| serde_json::from_str(m).ok()).unwrap_or_default();
+                        // acknowledged entries only: bytes of failed operations carry ids no successful append owns
+                        let mut unconsumed: Vec<(u32, u64)> = Vec::new();
+                        for (t, seq) in held.iter() {
+                            let opid = (*seq >> 20) as u32;
+                            let acked = rr.incs.iter().any(|x| x.events.iter().any(|ev| ev.t == "ret" && ev.op == Some(opid) && ev.res.as_ref().map(|r| r.k == "ok").unwrap_or(false)));
+                            if !acked {
+                                continue;
+                            }
+                            let ok = match consumed.get(seq) {
+                                Some((ci, cstep)) => *ci < i || (*ci == i && *cstep <= e.step),
+                                None => false,
+                            };
+                            if !ok {
+                                unconsumed.push((*t, *seq));
+                            }
+                        }
+                        if !unconsumed.is_empty() {
+                            out.push(
+                                Finding::new(
+                                    "c12.removed_unconsumed",
+                                    i,
+                                    0,
+                                    format!("file {} is deleted at step {} while it holds {} acknowledged entries that no consuming read has returned (e.g. topic {} seq={:x}); it holds {} entries in total", io.path, e.step, unconsumed.len(), unconsumed[0].0, unconsumed[0].1, held.len()),
+                                )
+                                .fact("unconsumed", serde_json::json!(unconsumed.len())),
+                            );
+                        }
+                    }
+                }
+            }
+        }
+    }
+    (out, removals)
+}
+
+impl Scenario for ReclaimScenario {
+    fn id(&self) -> &'static str {
+        "C12"
+    }
+    fn rule_text(&self) -> String {
+        "scaled geometry (8 blocks per file): 1-4 topics sharing files, bursts of appends/batches that allocate several blocks (incl. exact-fit and multi-unit entries), consuming reads, peeks, repeated empty polls at exact block ends, same-process and fresh-process restarts, FsyncSchedule::Milliseconds(1) so the reclaimer ticks every simulated millisecond and completes cleanup cycles during simulated sleeps; the reclaimer is a simulated thread interleaved with the client by the seeded scheduler; oracle: at every remove_file I/O event the simulator scans the file for harness payloads independently of the engine: every acknowledged entry found must already have been returned by a consuming read; plus the reference model's no-skip rule for all reads and a final drain after the last restart; non-trivial = at least one file was deleted during the run".into()
+    }
+    fn plan_for(&self, seed_r: u64) -> Option<Plan> {
+        Some(gen_reclaim(seed_r, "C12"))
+    }
+    fn run_one(&self, seed_r: u64, env: &Env) -> Outcome {
+        let plan = gen_reclaim(seed_r, "C12");
+        let rr = run_plan(&env.bins, &plan, &RunOpts::default());
+        let mut out = Outcome::default();
+        out.executions = rr.incs.len() as u64;
+        out.digest = history_hash(&rr);
+        absorb_summary(&mut out, &rr);
+        out.stat("sim_clock_ms", sim_clock_ms(&rr, &plan));
+        let (fs, removals) = judge_reclaim(&plan, &rr);
+        out.stat("reach.files_removed", removals);
+        if removals > 0 {
+            out.keys.push(plan_shape_key(&plan, &rr));
+        }
+        for f in fs {
+            out.findings.push((plan.clone(), f));
+        }
+        for inc in &rr.incs {
+            if !matches!(inc.exit, Exit::Code(0) | Exit::Code(78) | Exit::Code(79)) {
+                out.harness_errors.push(format!("child ended {:?} {}", inc.exit, inc.stderr.chars().take(200).collect::<String>()));
+            }
+        }
+        out.sample = Some(render_sample(&plan));
+        out
+    }
+    fn judge_plan(&self, plan: &Plan, env: &Env) -> (Vec<Finding>, u64) {
+        let rr = run_plan(&env.bins, plan, &RunOpts::default());
+        (judge_reclaim(plan, &rr).0, history_hash(&rr))
     }
 }
